@@ -22,7 +22,7 @@ def main():
     pre = '' if rnd == 1 else f'r{rnd}_'
     for i in range(1, 21):
         prop = f'C{i:02d}'
-        for k in (1, 2, 3):
+        for k in (1, 2, 3, 4):
             sd = WT / prop / 'seeds' / str(k)
             if not (sd / 'patch.diff').exists():
                 continue
